@@ -100,12 +100,21 @@ with cf.ThreadPoolExecutor(max_workers=par) as ex:
             bad += 1
 if suite:
     head = sh(["git", "-C", REPO, "rev-parse", "--short", "HEAD"]).stdout.strip()
-    with open(os.path.join(HERE, "seeded", "SUITE_RESULTS.md"), "w") as f:
+    path = os.path.join(HERE, "seeded", "SUITE_RESULTS.md")
+    keep = {}
+    if os.path.isfile(path):  # rows of earlier runs for changes not re-run now are kept
+        for ln in open(path):
+            if ln.startswith("| C") and ln.split("|")[1].strip() not in {r[0] for r in rows}:
+                keep[ln.split("|")[1].strip()] = ln
+    with open(path, "w") as f:
         f.write("# Seeded changes: the pinned test-suite and the checks\n\n")
-        f.write(f"Written by `selftest/sensitivity.py --suite` on {time.strftime('%Y-%m-%d %H:%M UTC', time.gmtime())}; every change applied (3-way) on /repo HEAD {head} in a scratch worktree.\n")
+        f.write(f"Written by `selftest/sensitivity.py --suite` (last update {time.strftime('%Y-%m-%d %H:%M UTC', time.gmtime())}, /repo HEAD {head}); every change applied (3-way) on the /repo HEAD of its run in a scratch worktree.\n")
         f.write("`stable tests not passing: 0` means all 7502 tests of /root/.vp/BASELINE.json stable_pass passed with the change applied.\n\n")
         f.write("Which check catches which change: DESIGN.md section 8.5 and `selftest/sensitivity.py`.\n\n")
         f.write("| change | property | patch applied | pinned suite with the change applied |\n|---|---|---|---|\n")
+        out = dict(keep)
         for mid, prop, verdict, detail, srow in rows:
-            f.write(f"| {mid} | {prop} | {detail.split(';')[0]} | {(srow or 'not run').replace(chr(10), '<br>')} |\n")
+            out[mid] = f"| {mid} | {prop} | {detail.split(';')[0]} | {(srow or 'not run').replace(chr(10), '<br>')} |\n"
+        for mid in sorted(out):
+            f.write(out[mid])
 sys.exit(1 if bad else 0)
